@@ -437,14 +437,14 @@ fn parse_basic_number<'a, I: Interrupt>(
 			.next()
 			.is_some_and(|c| SUPERSCRIPT_DIGITS.contains(&c))
 	{
-		if let Ok((mut power_digits, remaining)) = parse_power_number(input) {
+		if let Ok((power_digits, remaining)) = parse_power_number(input) {
 			let mut exponent = Number::zero_with_base(base);
 
-			power_digits.reverse();
-
-			for (i, digit) in power_digits.into_iter().enumerate() {
-				let num = digit * 10u64.pow(u32::try_from(i).unwrap());
-				exponent = exponent.add(num.into(), decimal_separator, int)?;
+			// most significant digit first: no fixed-width power of ten can overflow
+			for digit in power_digits {
+				exponent = exponent
+					.mul(10.into(), int)?
+					.add(digit.into(), decimal_separator, int)?;
 			}
 
 			res = res.pow(exponent, decimal_separator, int)?;
